@@ -59,6 +59,22 @@ func scenarios() []*sess.Scenario {
 					}
 				}
 			}},
+		// what a server sends first in a session: an acknowledgement, new_session_created and a pong, the last two
+		// content-related, alone or grouped in a container in any order - each content-related one is acknowledged
+		{Name: "A5-first-answer-of-a-session-ack-newsession-pong", Salt: 5, Opt: all, Handler: true, Callers: [][]sess.Call{{obj(1)}},
+			Setup: func(w *sess.World) {
+				w.Srv.Queue = append(w.Srv.Queue, &rpcsrv.Out{Body: srvAck(), Content: false, Label: "server-msgs_ack", Kind: -1},
+					&rpcsrv.Out{Body: (&tlw.W{}).U32(0x9ec20908).I64(int64(1600000000) << 32).I64(0x1122334455).I64(5).B, Content: true, Label: "new_session_created", Kind: -1},
+					&rpcsrv.Out{Body: (&tlw.W{}).U32(0x347773c5).I64(int64(1600000000)<<32 | 8).I64(7).B, Content: true, Label: "pong", Kind: -1})
+			}},
+		// the server complains about an id (bad_msg_notification 16 "msg_id too low", 17 "too high", 32/33 about the
+		// seq_no): whatever the client makes of it, what it writes afterwards is still a conformant stream
+		{Name: "A6-bad-msg-notifications-then-more-requests", Salt: 5, Opt: all, Handler: true, Callers: [][]sess.Call{{obj(1), obj(2)}, {obj(3)}},
+			Setup: func(w *sess.World) {
+				for _, code := range []int32{16, 17, 32, 33} {
+					w.Srv.Queue = append(w.Srv.Queue, &rpcsrv.Out{Body: (&tlw.W{}).U32(0xa7eff811).I64(int64(1599999000) << 32).I32(1).I32(code).B, Content: false, Label: fmt.Sprintf("bad_msg_notification(%d)", code), Kind: -1})
+				}
+			}},
 		// content-related messages whose processing fails (result for an unknown request) are still received
 		// messages: they, and what follows them in a container, must be acknowledged
 		{Name: "A3-unprocessable-among-updates", Salt: 5, Opt: all, Handler: true, Callers: [][]sess.Call{{obj(1)}},
